@@ -558,6 +558,11 @@ func (c *cache) get(nocache bool, ctx context.Context, url string, start, limit 
 		seg = &segment{}
 		c.segments[key{start, limit}] = seg
 	}
+	// count the read while the cache lock is held: readers that were handed
+	// the segment but have not read it yet must be visible to pruneMaxRead
+	seg.Lock()
+	seg.nreads++
+	seg.Unlock()
 	c.pruneSegments()
 	verifhook.Event("cache.segment", c, seg)
 	c.Unlock()
@@ -567,7 +572,6 @@ func (c *cache) get(nocache bool, ctx context.Context, url string, start, limit 
 	defer verifhook.Release(seg)
 	seg.Lock()
 	defer seg.Unlock()
-	seg.nreads++
 	if seg.done {
 		return seg.d, nil
 	}
